@@ -33,6 +33,10 @@ def run(ctx: Context) -> None:
     _infra.move_dimensions_exits(ctx, 'R18.4')
     from .common import adopt_foundations as _adopt
     _adopt(ctx, 'R18.7', ['geometry', 'order'], floor=60)
+    ctx.rule('R18.9', "the piece of the path a cell is intersected with is the one it was handed: the whole path is substituted only where none was given", floor=1)
+    with ctx.section('R18.9'):
+        from . import infra as _infra189
+        _infra189.none_default_discipline(ctx, 'R18.9', ['emsarray.transect.Transect._intersect_polygon'])
     ctx.assume("NOT decided: segment geometry (inside the cell, lengths adding up) and metre distances: GEOS / cartopy at run time")
 
     seg = ctx.func(f"{TR}.segments")
